@@ -246,7 +246,24 @@ func c15(c *engine.Ctx) {
 				}
 				okG := from(vs[3], gaAlloc) && from(vs[4], gbAlloc) && !from(vs[3], gbAlloc)
 				ka := engine.FindCallBack(vs[5], "crypto/sha256.Sum256")
-				kaOK = len(ka) == 1 && len(engine.FindCallBack(ka[0].Common().Args[0], "(crypto/srp.SRP).pad256FromBig")) == 1 && len(engine.FindCallBack(ka[0].Common().Args[0], "(crypto/srp.SRP).bigExp")) == 1
+				// k_a = H(s_a) where s_a is the 256-byte padded big-endian form of the exponentiation
+				// result: the hashed value must be, directly, pad256FromBig(bigExp(…))#0[:] (hashing
+				// Bytes() drops leading zero bytes for about one secret in 256)
+				kaOK = false
+				if len(ka) == 1 {
+					if sl, isSl := ka[0].Common().Args[0].(*ssa.Slice); isSl && sl.Low == nil && sl.High == nil {
+						if al, isA := sl.X.(*ssa.Alloc); isA {
+							sts := storesTo(fn, al)
+							if len(sts) == 1 {
+								if ex, isE := sts[0].Val.(*ssa.Extract); isE && ex.Index == 0 {
+									if pc, isC := ex.Tuple.(*ssa.Call); isC && engine.CalleeID(pc.Common()) == "(crypto/srp.SRP).pad256FromBig" {
+										kaOK = isCallTo(pc.Common().Args[1], "(crypto/srp.SRP).bigExp") != nil
+									}
+								}
+							}
+						}
+					}
+				}
 				m1OK = okXor && okSalts && okG && kaOK
 				m1Detail = fmt.Sprintf("xor=%v (%s) salts=%v g=%v ka=%v", okXor, x, okSalts, okG, kaOK)
 			}
@@ -268,4 +285,7 @@ func c15(c *engine.Ctx) {
 		c.Check(aOK, "C15.R2", "SRP.Hash/A", fn.Pos(), "the answer's A must be g_a")
 	}
 	c.Floor("C15.R2", 7, n)
+	// "invalid groups are refused" rests on the generator/prime table checkInput delegates to:
+	// the table rule of C13 (rule id C13.R1, shared) is decided here as well
+	c13R1(c)
 }
